@@ -656,6 +656,9 @@ func worldByName(n string) *world {
 	if n == worldDurations.name {
 		return worldDurations
 	}
+	if n == worldMisc.name {
+		return worldMisc
+	}
 	return nil
 }
 
